@@ -6,7 +6,7 @@
 (* printed (only if it fails or a clause had to be skipped) and the next    *)
 (* event is examined, so one failure never hides the remaining events.      *)
 (***************************************************************************)
-EXTENDS Contracts, Json, IOUtils
+EXTENDS SmtLibContracts, Json, IOUtils
 
 Trace == JsonDeserialize(IOEnv.TRACE_FILE)
 Ev == Trace.ev
@@ -23,6 +23,12 @@ Check(e) ==
       [] e.kind = "rewrite" -> RewriteContract(e)
       [] e.kind = "cnf" -> CnfContract(e)
       [] e.kind = "detect" -> DetectContract(e)
+      [] e.kind = "print_term" -> PrintTermContract(e)
+      [] e.kind = "print_script" -> PrintScriptContract(e)
+      [] e.kind = "parse" -> ParseContract(e)
+      [] e.kind = "smt_roundtrip" -> SmtRoundTripContract(e)
+      [] e.kind = "script_roundtrip" -> ScriptRoundTripContract(e)
+      [] e.kind = "hr_roundtrip" -> HRRoundTripContract(e)
       [] e.kind = "portfolio" -> PortfolioContract(e)
       [] e.kind = "opt" -> OptContract(e)
       [] e.kind = "twin" -> TwinContract(e)
